@@ -408,8 +408,49 @@ pub fn directed_forbid_cached(ctx: &Ctx, want: &str) -> Report {
 pub fn gen_random(r: &mut Rng, n: usize) -> History {
     let mut ops = mask_to_ops(rand_mask(r));
     let mut v = r.uniform(0.0, 10.0);
+    let mut recent: Vec<f32> = Vec::new();
     for _ in 0..n {
-        match r.below(20) {
+        if let Some(Op::Convert(x)) = ops.last() {
+            recent.push(*x);
+            if recent.len() > 6 {
+                recent.remove(0);
+            }
+        }
+        match r.below(24) {
+            20 => {
+                // exactly the same input as one of the last few conversions
+                if !recent.is_empty() {
+                    let x = *r.pick(&recent);
+                    ops.push(Op::Convert(x));
+                }
+            }
+            21 => {
+                // forbid the pitch class nearest below the current input and allow it again at once (or after one conversion)
+                let pc = ((v.max(0.0) * 12.0).floor() as u64 % 12) as u8;
+                ops.push(Op::Forbid(vec![pc]));
+                if r.chance(0.3) {
+                    ops.push(Op::Convert((v + r.uniform(-0.004, 0.004)) as f32));
+                }
+                ops.push(Op::Allow(vec![pc]));
+                ops.push(Op::Convert((v + r.uniform(-0.008, 0.008)) as f32));
+            }
+            22 => {
+                // a storm of edits between two conversions of the same input (counts around powers of two)
+                let total = *r.pick(&[7usize, 8, 255, 256, 257, 511, 512]);
+                let pc = ((v.max(0.0) * 12.0).floor() as u64 % 12) as u8;
+                let other = (pc + 1 + r.below(11) as u8) % 12;
+                ops.push(Op::Convert(v as f32));
+                for k in 0..total - 1 {
+                    ops.push(if k % 2 == 0 { Op::Allow(vec![other]) } else { Op::Forbid(vec![other]) });
+                }
+                ops.push(Op::Forbid(vec![pc]));
+                ops.push(Op::Convert(v as f32));
+                ops.push(Op::Allow(vec![pc]));
+            }
+            23 => {
+                // top of the range, where the octave above does not exist
+                ops.push(Op::Convert(*r.pick(&[10.0f32, 9.999_999, 9.9999, 9.9917, 9.95, 10.0001])));
+            }
             0 => ops.push(Op::Forbid((0..r.below(5)).map(|_| r.below(14) as u8).collect())),
             1 => ops.push(Op::Allow((0..r.below(5)).map(|_| r.below(14) as u8).collect())),
             2 => {
@@ -708,6 +749,106 @@ impl Fresh {
     }
 }
 
+/// ops that lead to the scale `mask` by route `route` (0: forbid all with a member last, then allow the rest;
+/// 1: forbid all with a non-member last, allow members, forbid that one; 2: one call per note)
+pub fn scale_by_route(mask: u16, route: u8) -> Vec<Op> {
+    let members: Vec<u8> = (0..12u8).filter(|n| mask >> n & 1 == 1).collect();
+    let non: Vec<u8> = (0..12u8).filter(|n| mask >> n & 1 == 0).collect();
+    match route {
+        0 => {
+            let keep = members[members.len() / 2];
+            let mut all: Vec<u8> = (0..12u8).filter(|n| *n != keep).collect();
+            all.push(keep);
+            let rest: Vec<u8> = members.iter().copied().filter(|n| *n != keep).collect();
+            let mut ops = vec![Op::Forbid(all)];
+            if !rest.is_empty() {
+                ops.push(Op::Allow(rest));
+            }
+            ops
+        }
+        1 if !non.is_empty() => {
+            let last = non[0];
+            let mut all: Vec<u8> = (0..12u8).filter(|n| *n != last).collect();
+            all.push(last);
+            vec![Op::Forbid(all), Op::Allow(members.clone()), Op::Forbid(vec![last])]
+        }
+        _ => {
+            let mut ops = Vec::new();
+            for n in non.iter().rev() {
+                ops.push(Op::Forbid(vec![*n]));
+            }
+            if ops.is_empty() {
+                ops.push(Op::Allow(vec![0]));
+            }
+            ops
+        }
+    }
+}
+
+fn c08_edit_paths(ctx: &Ctx, masks: &[u16], grid: &[f32]) -> Report {
+    let shards = masks.len().min(if ctx.tier == Tier::Small { 1 } else { 256 });
+    par_shards(ctx, shards, |sh| {
+        let mut rep = Report::new();
+        let mut k = sh;
+        let mut n_eval = 0u64;
+        // a thinned grid: every route x every scale x every 7th grid point (offset by the scale)
+        while k < masks.len() {
+            let mask = masks[k];
+            k += shards;
+            for route in 0..3u8 {
+                let ops = scale_by_route(mask, route);
+                let mut last: Option<(f32, u8)> = None;
+                let mut j = (mask as usize + route as usize) % 7;
+                while j < grid.len() {
+                    let v = grid[j];
+                    j += 7;
+                    let res = guard(|| {
+                        let mut q = Quantizer::new();
+                        for op in &ops {
+                            match op {
+                                Op::Allow(ns) => q.allow(&notes(ns)),
+                                Op::Forbid(ns) => q.forbid(&notes(ns)),
+                                Op::Convert(_) => {}
+                            }
+                        }
+                        q.convert(v).note_num
+                    });
+                    n_eval += 1;
+                    let mk = |note: u8, why: String, clause: &str| {
+                        let mut o = ops.clone();
+                        o.push(Op::Convert(v));
+                        Violation { clause: clause.into(), signature: format!("C08:{}", clause), message: format!("scale {:#05x} set up by {:?}, fresh quantizer, convert({}) = note {}: {}", mask, ops, v, note, why), replay: History { ops: o }.to_text("C08", 999) }
+                    };
+                    match res {
+                        Err(p) => {
+                            let mut vi = mk(0, format!("panicked: {}", p), "panic");
+                            vi.signature = format!("C08:panic:{}", p);
+                            rep.violate(vi);
+                            break;
+                        }
+                        Ok(note) => {
+                            if let Err(why) = nearest_ok(mask, v, note) {
+                                rep.violate(mk(note, why, "nearest"));
+                                break;
+                            }
+                            if let Some((lv, ln)) = last {
+                                if v >= lv && note < ln {
+                                    rep.violate(mk(note, format!("the note decreased from {} (at {} V) although the input rose", ln, lv), "monotone"));
+                                    break;
+                                }
+                            }
+                            last = Some((v, note));
+                        }
+                    }
+                }
+            }
+            rep.count("quant.c08.scales_by_edit_paths", 1);
+        }
+        rep.evaluations += n_eval;
+        rep
+    })
+}
+
 /// boundary-targeted input grid: every half-semitone point of 0..10 V with small offsets, ascending
 pub fn boundary_grid() -> Vec<f32> {
     let mut v: Vec<f64> = Vec::new();
@@ -744,6 +885,12 @@ pub fn run_c08(ctx: &Ctx) -> Report {
     let grid = boundary_grid();
     let r = c08_sweep(ctx, &all, &|j| grid.get(j).copied(), "boundary_grid");
     stage("quant.c08.all_scales_x_boundary_grid", r, &mut rep, t);
+    // (a2) the same scales reached through other edit histories (forbid-everything fallback, then allow the rest;
+    //      allow/forbid in several calls): a fresh quantizer is one without a prior *conversion*, however its
+    //      scale was set up
+    let t = std::time::Instant::now();
+    let r = c08_edit_paths(ctx, &all, &grid);
+    stage("quant.c08.scales_built_by_edit_paths", r, &mut rep, t);
     // (b) out-of-range and special inputs (not ascending: monotonicity is only judged on rising pairs)
     let t = std::time::Instant::now();
     let special: Vec<f32> = vec![f32::NEG_INFINITY, -1e30, -1.0, -1e-6, -0.0, 0.0, 1e-45, 1e-7, 9.999_999, 10.0, 10.000_001, 10.5, 11.0, 1e30, f32::INFINITY, f32::NAN];
@@ -773,6 +920,7 @@ pub fn run_c08(ctx: &Ctx) -> Report {
     if !small {
         rep.floor("quant.c08.scales_swept.boundary_grid", 4095);
         rep.floor("quant.c08.scales_swept.special_inputs", 4095);
+        rep.floor("quant.c08.scales_by_edit_paths", 4095);
     }
     rep.sample(format!("scale 0x008 (only D#) x boundary grid of {} inputs: {:?} ...", grid.len(), &grid[..6]));
     rep.sample("scale 0xab5 (C major) x inputs 0 uV, 997 uV, 1994 uV, ... (fresh quantizer each)".to_string());
@@ -826,7 +974,15 @@ pub fn replay(t: &Text, want: &str, rep: &mut Report) -> Result<Option<Violation
                     }
                 }
                 Op::Convert(v) => {
-                    let mut q = fresh_with(mask);
+                    // the scale is set up by replaying the recorded edits themselves
+                    let mut q = Quantizer::new();
+                    for e in &h.ops {
+                        match e {
+                            Op::Allow(ns) => q.allow(&notes(ns)),
+                            Op::Forbid(ns) => q.forbid(&notes(ns)),
+                            Op::Convert(_) => {}
+                        }
+                    }
                     let note = q.convert(*v).note_num;
                     rep.evaluations += 1;
                     if let Err(why) = nearest_ok(mask, *v, note) {
